@@ -10,8 +10,8 @@
 #include <string.h>
 #include <stdlib.h>
 
-#define NT 6
-enum { O_PUSH, O_PUSHPRIO, O_POP, O_END };
+#define NT 20                      /* 0..5: the hand-written scripts; generated scripts: 0,1 = initial content, 2 + 6 t + j = j-th fresh task of thread t */
+enum { O_PUSH, O_PUSHPRIO, O_POP, O_END, O_PUSHBACK };   /* O_PUSHBACK (generated scripts): push_all of the oldest task this thread popped and still holds */
 typedef struct { int type, a, b, c; } step_t;           /* ring a[,b[,c]] */
 typedef struct { const char *name; int size; int prios[NT]; int ninit, init[NT]; int nthreads; step_t script[3][3]; } scen_t;
 static const scen_t *cur;
@@ -19,6 +19,7 @@ static parsec_hbbuffer_t *buf;
 static parsec_task_t *tasks;
 /* per-thread logs (private to each controlled thread: no sharing, no scheduling points) */
 static int popped[3][4], npopped[3], pop_null[3];
+static int repushed[3][4], nrepushed[3];                /* O_PUSHBACK: what was pushed again (oldest popped first) */
 static int parent_got[4][NT], nparent[4];               /* index 3 = main thread */
 static char perr[4][160];
 
@@ -49,13 +50,16 @@ static void body(void *arg)
         const step_t *s = &cur->script[t][i];
         if (s->type == O_PUSH) parsec_hbbuffer_push_all(buf, mkring(s), 0);
         else if (s->type == O_PUSHPRIO) parsec_hbbuffer_push_all_by_priority(buf, mkring(s), 0);
+        else if (s->type == O_PUSHBACK) {
+            if (nrepushed[t] < npopped[t]) { step_t st = { O_PUSH, popped[t][nrepushed[t]], -1, -1 }; repushed[t][nrepushed[t]++] = st.a; parsec_hbbuffer_push_all(buf, mkring(&st), 0); }
+        }
         else { parsec_list_item_t *it = parsec_hbbuffer_pop_best(buf, parsec_execution_context_priority_comparator); if (it) popped[t][npopped[t]++] = id_of(it); else pop_null[t]++; }
     }
 }
 static void run_scen(const scen_t *s)
 {
     cur = s; memset(popped, 0, sizeof(popped)); memset(npopped, 0, sizeof(npopped)); memset(pop_null, 0, sizeof(pop_null));
-    memset(nparent, 0, sizeof(nparent)); memset(perr, 0, sizeof(perr));
+    memset(nparent, 0, sizeof(nparent)); memset(perr, 0, sizeof(perr)); memset(nrepushed, 0, sizeof(nrepushed));
     tasks = calloc(NT, sizeof(parsec_task_t));
     for (int i = 0; i < NT; i++) { PARSEC_OBJ_CONSTRUCT(&tasks[i].super, parsec_list_item_t); tasks[i].priority = s->prios[i]; }
     buf = parsec_hbbuffer_new(s->size, 1, parent_push, (void *)1);
@@ -66,7 +70,8 @@ static void run_scen(const scen_t *s)
     cs_body_t b[3] = { body, body, body }; void *args[3] = { (void *)0, (void *)1, (void *)2 };
     cs_run(s->nthreads, b, args);
 
-    for (int t = 0; t < s->nthreads; t++) for (int i = 0; i < 3 && s->script[t][i].type != O_END; i++) if (s->script[t][i].type != O_POP) { const step_t *x = &s->script[t][i]; pushed[x->a]++; if (x->b >= 0) pushed[x->b]++; if (x->c >= 0) pushed[x->c]++; }
+    for (int t = 0; t < s->nthreads; t++) for (int i = 0; i < 3 && s->script[t][i].type != O_END; i++) if (s->script[t][i].type != O_POP && s->script[t][i].type != O_PUSHBACK) { const step_t *x = &s->script[t][i]; pushed[x->a]++; if (x->b >= 0) pushed[x->b]++; if (x->c >= 0) pushed[x->c]++; }
+    for (int t = 0; t < 3; t++) for (int i = 0; i < nrepushed[t]; i++) pushed[repushed[t][i]]++;
     for (int t = 0; t < 4; t++) CS_CHECK(!perr[t][0], "%s", perr[t]);
     /* conservation: every pushed task is in exactly one place */
     int inbuf[NT] = {0}, inpar[NT] = {0}, inpop[NT] = {0}, held = 0;
@@ -75,7 +80,7 @@ static void run_scen(const scen_t *s)
     char out[300]; int o = 0;
     for (int i = 0; i < NT; i++) {
         int total = inbuf[i] + inpar[i] + inpop[i];
-        CS_CHECK(total <= 1 || !pushed[i], "task %d is in %d places (buffer %d, parent store %d, popped %d): duplicated", i, total, inbuf[i], inpar[i], inpop[i]);
+        CS_CHECK((pushed[i] <= 1 ? total <= 1 : inbuf[i] + inpar[i] <= 1) || !pushed[i], "task %d is in %d places (buffer %d, parent store %d, popped %d): duplicated", i, total, inbuf[i], inpar[i], inpop[i]);
         CS_CHECK(total == pushed[i], "task %d pushed %d time(s) but found %d time(s) (buffer %d, parent store %d, popped %d): %s", i, pushed[i], total, inbuf[i], inpar[i], inpop[i], total < pushed[i] ? "lost" : "appeared from nowhere");
         if (pushed[i]) o += snprintf(out + o, sizeof(out) - o, "%d:%c ", i, inbuf[i] ? 'B' : inpar[i] ? 'P' : 'X');
     }
@@ -106,10 +111,166 @@ static const scen_t scens[] = {
     { "s2_aba_prio_vs_pop_push", 2, { 1, 2, 3, 1, 2, 3 }, 2, { 0, 1 }, 2, { { { O_PUSHPRIO, 2, -1, -1 }, E }, { { O_POP, -1, -1, -1 }, { O_PUSH, 3, -1, -1 }, E } } },
     { "s2_pop_pop_push3", 2, { 1, 2, 3, 1, 2, 3 }, 1, { 0 }, 3, { { { O_POP, -1, -1, -1 }, E }, { { O_POP, -1, -1, -1 }, E }, { { O_PUSH, 1, 2, 3 }, E } } },
 };
+
+/* ==================================================================================================================
+ * Generated (bounded-exhaustive) script families.
+ *
+ *   script = pre-state S<size>F<fill> (buffer of 1-2 slots holding <fill> tasks of priority 2)  x  T0: a ops || T1: b ops (|| T2: c ops)
+ *   op     = p  pop_best                                  b  push_all of the OLDEST task this thread popped and still holds
+ *            u  push_all [H]        U  push_all [H,L]      (fresh tasks; H = priority 3, L = priority 1: above / below the initial content)
+ *            l / m / h  push_all_by_priority [L] / [M = priority 2, ties with the content] / [H]        Q / R  push_all_by_priority [H,L] / [H,H]
+ *                       (R on a full buffer ejects two incumbents in one call)
+ * Tiny domains chosen to collide: 1-2 slots (every operation meets every other on the same slot; rings of 2 overflow), three
+ * priorities (a by-priority push ejects or not depending on L/M/H), and re-use of a popped task ('b': the ABA window of by-priority).
+ * Family = ALL scripts of a shape minus contract violations ('b' where the thread cannot hold a task; by-priority rings are built in
+ * decreasing priority order), up to renaming of threads of equal length.
+ * Text (= scenario name, stored in the replay file): g.S<s>F<f>.<ops T0>.<ops T1>[.<ops T2>]    e.g.  g.S2F2.h.pb
+ * Selection: C35_GEN="shape=2,1;ops=pbuUlhQ;pre=01234;range=lo:hi"   (pre: 0 = S1F0, 1 = S1F1, 2 = S2F0, 3 = S2F1, 4 = S2F2)
+ * ================================================================================================================== */
+static const char gopl[] = "pbuUlmhQR";
+static const struct { int size, fill; } gpre[5] = { {1, 0}, {1, 1}, {2, 0}, {2, 1}, {2, 2} };
+typedef struct { scen_t sc; char name[48]; char txt[3][4]; int len[3]; } gdef_t;
+static gdef_t *gdefs; static int ngdefs, capgdefs;
+static long gen_raw, gen_contract;
+
+/* fill sc from (pre, txt): fresh task ids and priorities are assigned statically */
+static void g_build(gdef_t *g, int pre, int nthr)
+{
+    scen_t *sc = &g->sc; memset(sc, 0, sizeof(*sc));
+    sc->size = gpre[pre].size; sc->ninit = gpre[pre].fill; sc->nthreads = nthr;
+    for (int i = 0; i < NT; i++) sc->prios[i] = 2;
+    for (int i = 0; i < sc->ninit; i++) sc->init[i] = i;
+    for (int t = 0; t < 3; t++) {
+        int fresh = 2 + 6 * t;
+        for (int j = 0; j < 3; j++) {
+            step_t st = { O_END, -1, -1, -1 };
+            if (t < nthr && j < g->len[t]) switch (g->txt[t][j]) {
+                case 'p': st.type = O_POP; break;
+                case 'b': st.type = O_PUSHBACK; break;
+                case 'u': st.type = O_PUSH; st.a = fresh++; sc->prios[st.a] = 3; break;
+                case 'U': st.type = O_PUSH; st.a = fresh++; st.b = fresh++; sc->prios[st.a] = 3; sc->prios[st.b] = 1; break;
+                case 'l': st.type = O_PUSHPRIO; st.a = fresh++; sc->prios[st.a] = 1; break;
+                case 'm': st.type = O_PUSHPRIO; st.a = fresh++; sc->prios[st.a] = 2; break;
+                case 'h': st.type = O_PUSHPRIO; st.a = fresh++; sc->prios[st.a] = 3; break;
+                case 'Q': st.type = O_PUSHPRIO; st.a = fresh++; st.b = fresh++; sc->prios[st.a] = 3; sc->prios[st.b] = 1; break;
+                case 'R': st.type = O_PUSHPRIO; st.a = fresh++; st.b = fresh++; sc->prios[st.a] = 3; sc->prios[st.b] = 3; break;
+            }
+            sc->script[t][j] = st;
+        }
+    }
+    int o = snprintf(g->name, sizeof(g->name), "g.S%dF%d", sc->size, sc->ninit);
+    for (int t = 0; t < nthr; t++) { g->name[o++] = '.'; for (int j = 0; j < g->len[t]; j++) g->name[o++] = g->txt[t][j]; }
+    g->name[o] = 0;
+}
+static int g_parse(const char *txt, gdef_t *g)
+{
+    memset(g, 0, sizeof(*g));
+    int S, F; if (sscanf(txt, "g.S%1dF%1d", &S, &F) != 2 || strlen(txt) >= sizeof(g->name)) return -1;
+    int pre = -1; for (int i = 0; i < 5; i++) if (gpre[i].size == S && gpre[i].fill == F) pre = i;
+    if (pre < 0) return -1;
+    int t = -1;
+    for (const char *q = txt + 6; *q; q++) {
+        if (*q == '.') { if (++t >= 3) return -1; continue; }
+        if (t < 0 || !strchr(gopl, *q) || g->len[t] >= 3) return -1;
+        g->txt[t][g->len[t]++] = *q;
+    }
+    if (t < 1) return -1;
+    for (int i = 0; i <= t; i++) if (!g->len[i]) return -1;
+    g_build(g, pre, t + 1);
+    return strcmp(g->name, txt) ? -1 : 0;
+}
+/* usage contract: a thread pushes only tasks it owns: 'b' only where the thread may hold a popped task (skipped at run time if the pops
+ * returned NULL). By-priority rings are generated in decreasing priority order only. */
+static int g_contract(const gdef_t *g, int nthr)
+{
+    for (int t = 0; t < nthr; t++) { int h = 0; for (int j = 0; j < g->len[t]; j++) { char c = g->txt[t][j]; if (c == 'p') h++; if (c == 'b' && --h < 0) return 0; } }
+    return 1;
+}
+static int g_canonical(const gdef_t *g, int nthr)
+{
+    for (int t = 0; t + 1 < nthr; t++) if (g->len[t] == g->len[t + 1] && strncmp(g->txt[t], g->txt[t + 1], g->len[t]) > 0) return 0;
+    return 1;
+}
+static void gen_family(const char *spec, int list_only)
+{
+    int shape[3] = {1, 1, 0}, nthr = 2, prel[5], npre = 0; char opsel[12] = ""; long lo = 0, hi = -1;
+    char buf[256]; snprintf(buf, sizeof(buf), "%s", spec);
+    for (char *tok = strtok(buf, ";"); tok; tok = strtok(NULL, ";")) {
+        if (!strncmp(tok, "shape=", 6)) nthr = sscanf(tok + 6, "%d,%d,%d", &shape[0], &shape[1], &shape[2]);
+        else if (!strncmp(tok, "ops=", 4)) { int n = 0; for (char *c = tok + 4; *c; c++) if (strchr(gopl, *c) && n < 9) opsel[n++] = *c; opsel[n] = 0; }
+        else if (!strncmp(tok, "pre=", 4)) { for (char *c = tok + 4; *c; c++) if (*c >= '0' && *c <= '4' && npre < 5) prel[npre++] = *c - '0'; }
+        else if (!strncmp(tok, "range=", 6)) sscanf(tok + 6, "%ld:%ld", &lo, &hi);
+        else { fprintf(stderr, "C35: bad C35_GEN token '%s'\n", tok); exit(2); }
+    }
+    int na = (int)strlen(opsel), total = 0;
+    if (nthr < 2 || nthr > 3 || !na || !npre) { fprintf(stderr, "C35: incomplete C35_GEN '%s'\n", spec); exit(2); }
+    for (int t = 0; t < nthr; t++) { if (shape[t] < 1 || shape[t] > 3) { fprintf(stderr, "C35: bad shape (1..3 operations per thread)\n"); exit(2); } total += shape[t]; }
+    long ncomb = 1; for (int i = 0; i < total; i++) ncomb *= na;
+    long idx = 0;
+    for (int pi = 0; pi < npre; pi++) for (long c = 0; c < ncomb; c++) {
+        gdef_t g; memset(&g, 0, sizeof(g));
+        int dig[9]; long r = c; for (int i = total - 1; i >= 0; i--) { dig[i] = (int)(r % na); r /= na; }
+        int q = 0; for (int t = 0; t < nthr; t++) { g.len[t] = shape[t]; for (int j = 0; j < shape[t]; j++) g.txt[t][j] = opsel[dig[q++]]; }
+        gen_raw++;
+        if (!g_contract(&g, nthr)) continue;
+        gen_contract++;
+        if (!g_canonical(&g, nthr)) continue;
+        long me = idx++;
+        if (me < lo || (hi >= 0 && me >= hi)) continue;
+        if (ngdefs == capgdefs) { capgdefs = capgdefs ? 2 * capgdefs : 256; gdefs = realloc(gdefs, capgdefs * sizeof(gdef_t)); }
+        g_build(&g, prel[pi], nthr); gdefs[ngdefs++] = g;
+    }
+    for (int i = 0; i < ngdefs; i++) gdefs[i].sc.name = gdefs[i].name;
+    if (list_only) {
+        printf("{\"spec\":\"%s\",\"alphabet\":%d,\"generated\":%ld,\"after_contract\":%ld,\"after_relevance\":%ld,\"after_symmetry\":%ld,\"scripts\":[", spec, na, gen_raw, gen_contract, gen_contract, idx);
+        for (int i = 0; i < ngdefs; i++) printf("%s\"%s\"", i ? "," : "", gdefs[i].name);
+        printf("]}\n");
+    }
+}
+/* cosched scenarios carry a parameterless run(): one trampoline per slot of gdefs[] */
+#define MAXGEN 4096
+#define G1(h)   static void gr_##h(void) { run_scen(&gdefs[0x##h].sc); }
+#define G16(h)  G1(h##0) G1(h##1) G1(h##2) G1(h##3) G1(h##4) G1(h##5) G1(h##6) G1(h##7) G1(h##8) G1(h##9) G1(h##a) G1(h##b) G1(h##c) G1(h##d) G1(h##e) G1(h##f)
+#define G256(h) G16(h##0) G16(h##1) G16(h##2) G16(h##3) G16(h##4) G16(h##5) G16(h##6) G16(h##7) G16(h##8) G16(h##9) G16(h##a) G16(h##b) G16(h##c) G16(h##d) G16(h##e) G16(h##f)
+G256(0) G256(1) G256(2) G256(3) G256(4) G256(5) G256(6) G256(7) G256(8) G256(9) G256(a) G256(b) G256(c) G256(d) G256(e) G256(f)
+#define A1(h)   gr_##h,
+#define A16(h)  A1(h##0) A1(h##1) A1(h##2) A1(h##3) A1(h##4) A1(h##5) A1(h##6) A1(h##7) A1(h##8) A1(h##9) A1(h##a) A1(h##b) A1(h##c) A1(h##d) A1(h##e) A1(h##f)
+#define A256(h) A16(h##0) A16(h##1) A16(h##2) A16(h##3) A16(h##4) A16(h##5) A16(h##6) A16(h##7) A16(h##8) A16(h##9) A16(h##a) A16(h##b) A16(h##c) A16(h##d) A16(h##e) A16(h##f)
+static void (*const gtramp[MAXGEN])(void) = { A256(0) A256(1) A256(2) A256(3) A256(4) A256(5) A256(6) A256(7) A256(8) A256(9) A256(a) A256(b) A256(c) A256(d) A256(e) A256(f) };
+static int gen_main(int argc, char **argv)
+{
+    if (ngdefs > MAXGEN) { fprintf(stderr, "C35: %d generated scripts in one invocation (max %d): use range=\n", ngdefs, MAXGEN); return 2; }
+    if (ngdefs == 0) { fprintf(stderr, "C35: the selection holds no script\n"); return 2; }
+    cs_scenario_t *sc = calloc(ngdefs, sizeof(*sc));
+    for (int i = 0; i < ngdefs; i++) { sc[i].name = gdefs[i].name; sc[i].run = gtramp[i]; }
+    return cs_main(argc, argv, "C35", sc, ngdefs, NULL);
+}
+
 #define R(i) static void r##i(void) { run_scen(&scens[i]); }
 R(0) R(1) R(2) R(3) R(4) R(5) R(6)
 static cs_scenario_t scenarios[] = {
     { "s1_push2_push1_pop", r0, 0 }, { "s1_prio_prio_pop", r1, 0 }, { "s2_prio2_prio1_pop2", r2, 0 }, { "s2_full_prio_pop_pop", r3, 0 },
     { "s2_push_prio_pop", r4, 0 }, { "s2_aba_prio_vs_pop_push", r5, 0 }, { "s2_pop_pop_push3", r6, 0 },
 };
-int main(int argc, char **argv) { return cs_main(argc, argv, "C35", scenarios, sizeof(scenarios) / sizeof(scenarios[0]), NULL); }
+int main(int argc, char **argv)
+{
+    /* generated families: C35_GEN=<spec> explores (a range of) a family; --gen-list prints it; the replay file of a generated script
+     * carries the script text as its scenario name, from which the script is rebuilt */
+    for (int i = 1; i < argc; i++) {
+        if (!strcmp(argv[i], "--gen-list")) { const char *g = getenv("C35_GEN"); if (!g) return 2; gen_family(g, 1); return 0; }
+        if (!strcmp(argv[i], "--replay") && i + 1 < argc) {
+            FILE *f = fopen(argv[i + 1], "r"); char buf[4096]; size_t n = f ? fread(buf, 1, sizeof(buf) - 1, f) : 0; if (f) fclose(f); buf[n] = 0;
+            char *q = strstr(buf, "\"scenario\":\"g.");
+            if (q) {
+                q += 12; char *e = strchr(q, '"'); if (!e) return 2; *e = 0;
+                gdefs = calloc(1, sizeof(gdef_t)); ngdefs = 1;
+                if (g_parse(q, &gdefs[0])) { fprintf(stderr, "C35: cannot parse the script text '%s'\n", q); return 2; }
+                gdefs[0].sc.name = gdefs[0].name;
+                printf("generated script %s (rebuilt from the scenario text of the replay file)\n", q);
+                return gen_main(argc, argv);
+            }
+        }
+    }
+    if (getenv("C35_GEN") && *getenv("C35_GEN")) { gen_family(getenv("C35_GEN"), 0); return gen_main(argc, argv); }
+    return cs_main(argc, argv, "C35", scenarios, sizeof(scenarios) / sizeof(scenarios[0]), NULL);
+}
